@@ -1,7 +1,7 @@
 (* Props/C05.v — responses are accepted only if addressed to this SP and solicited.
    "accepted" = Entity._parse_response returns normally: parse_response c r = Ok o.
    [processed r] = the assertions (plain and decrypted) the application may read. *)
-From PV Require Import Lib.Base Model.Status Model.Response Proofs.Response_lemmas Proofs.C05_lemmas.
+From PV Require Import Lib.Base Model.Status Model.Response Model.Endpoints Proofs.Response_lemmas Proofs.C05_lemmas Proofs.Endpoints_lemmas.
 Open Scope Z_scope.
 
 (* Unless unsolicited responses are allowed: InResponseTo identifies an
@@ -105,3 +105,116 @@ Example C05_witness :
   is_ok (parse_response cfg0 (resp0 [[me]; [s2l "https://other.example.org/sp"]])) = false.
 Proof. vm_compute. split; reflexivity. Qed.
 Print Assumptions C05_witness.
+
+(* ------------------------------------------------------------------------
+   The endpoint table quantified per binding (Model/Endpoints.v): the SP is
+   configured with an arbitrary assertion_consumer_service table [acs ec] and
+   the response arrives over an arbitrary binding [arriving ec]; the expected
+   return addresses are what Base.service_urls computes from the two.
+   [registered_for eps b u]: u is listed with binding b, or no entry carries b
+   and u is listed without a binding. *)
+
+(* what service_urls hands out is exactly the set registered FOR THAT BINDING *)
+Theorem C05_service_urls_exact :
+  forall eps b,
+    (forall l, service_urls eps b = Some l -> forall u, In u l <-> registered_for eps b u) /\
+    (service_urls eps b = None -> forall u, ~ registered_for eps b u).
+Proof. intros eps b. split; [exact (service_urls_some eps b)|exact (service_urls_none eps b)]. Qed.
+Print Assumptions C05_service_urls_exact.
+
+(* an accepted Destination is an endpoint registered for the arriving binding (or matches the pattern) *)
+Theorem C05_destination_for_binding :
+  forall ec r o, parse_authn_response ec r = Ok o -> browser_binding (arriving ec) = true ->
+    forall d, r_destination r = Some d ->
+      (dest_regex_set (base ec) = true -> dest_regex_match (base ec) = true) /\
+      (dest_regex_set (base ec) = false -> registered_for (acs_table ec) (arriving ec) d).
+Proof.
+  intros ec r o H Hb d Hd. destruct (C05_destination (cfg_of ec) r o H Hb d Hd) as [A B].
+  split; [exact A|]. intros Hr. destruct (B Hr) as (addrs & H1 & H2).
+  cbn [cfg_of return_addrs] in H1. now apply (service_urls_some _ _ _ H1).
+Qed.
+Print Assumptions C05_destination_for_binding.
+
+(* in particular: the SP's own endpoint of ANOTHER binding, a foreign URL, anything not listed
+   for the arriving binding is refused when no pattern is configured — also when the SP has
+   no endpoint at all for the arriving binding *)
+Theorem C05_destination_other_binding_refused :
+  forall ec r d, browser_binding (arriving ec) = true -> dest_regex_set (base ec) = false ->
+    r_destination r = Some d -> ~ In (EP d (arriving ec)) (acs_table ec) -> ~ In (Unspec d) (acs_table ec) ->
+    is_ok (parse_authn_response ec r) = false.
+Proof.
+  intros ec r d Hb Hr Hd H1 H2. destruct (parse_authn_response ec r) as [o|e] eqn:Ep; [|reflexivity].
+  exfalso. destruct (C05_destination_for_binding ec r o Ep Hb d Hd) as [_ B].
+  exact (other_binding_not_registered _ _ _ H1 H2 (B Hr)).
+Qed.
+Print Assumptions C05_destination_other_binding_refused.
+
+(* with conversation information every retained confirmation's Recipient is the entity id given
+   there or an endpoint registered for the arriving binding *)
+Theorem C05_recipient_for_binding :
+  forall ec r o ci, parse_authn_response ec r = Ok o -> conv_info (base ec) = Some ci ->
+    Forall (fun a => exists kept, kept <> [] /\ incl kept (a_confirmations a) /\
+       Forall (fun sc => exists d rcp, c_data sc = Some d /\ d_recipient d = Some rcp /\
+                  (ci_entity_id ci = Some rcp \/ registered_for (acs_table ec) (arriving ec) rcp)) kept)
+      (processed r).
+Proof.
+  intros ec r o ci H Hc. pose proof (C05_recipient (cfg_of ec) r o ci H Hc) as F.
+  eapply Forall_impl; [|exact F]. intros a (kept & Hne & Hin & Hk). exists kept. split; [exact Hne|]. split; [exact Hin|].
+  eapply Forall_impl; [|exact Hk]. intros sc (d & rcp & Hd & Hr & [He|(addrs & H1 & H2)]); exists d, rcp; (split; [exact Hd|]); (split; [exact Hr|]).
+  - now left.
+  - right. cbn [cfg_of return_addrs] in H1. now apply (service_urls_some _ _ _ H1).
+Qed.
+Print Assumptions C05_recipient_for_binding.
+
+(* the solicited clause for a call: browser binding = any binding other than SOAP / PAOS *)
+Theorem C05_solicited_call :
+  forall ec r o, parse_authn_response ec r = Ok o -> browser_binding (arriving ec) = true ->
+    allow_unsolicited (base ec) = false ->
+    (exists i cf, r_irt r = Some i /\ lookup_str i (outstanding (base ec)) = Some cf) /\
+    Forall (fun a => exists kept, kept <> [] /\ incl kept (a_confirmations a) /\
+       Forall (fun sc => forall d x, c_method sc = Bearer -> c_data sc = Some d -> d_irt d = Some x -> r_irt r = Some x) kept)
+      (processed r).
+Proof. intros ec r o H Hb Hu. exact (C05_solicited (cfg_of ec) r o H Hb Hu). Qed.
+Print Assumptions C05_solicited_call.
+
+(* a history of calls on ONE long-lived SP (fixed endpoint table; binding, outstanding requests,
+   conversation info, clock, pattern verdict and message free per call): whatever came before,
+   the n-th call, when accepted, satisfies the addressing clauses for ITS OWN binding *)
+Theorem C05_history :
+  forall eps (calls : list call) n c b r o,
+    nth_error calls n = Some (c, b, r) -> nth_error (run_calls eps calls) n = Some (Ok o) ->
+    browser_binding b = true ->
+    (forall d, r_destination r = Some d ->
+       (dest_regex_set c = true -> dest_regex_match c = true) /\
+       (dest_regex_set c = false -> registered_for eps b d)) /\
+    (allow_unsolicited c = false -> exists i cf, r_irt r = Some i /\ lookup_str i (outstanding c) = Some cf).
+Proof.
+  intros eps calls n c b r o Hn Hr Hb. rewrite nth_error_run_calls, Hn in Hr. injection Hr as Hr.
+  split.
+  - intros d Hd. exact (C05_destination_for_binding {| base := c; acs_table := eps; arriving := b |} r o Hr Hb d Hd).
+  - intros Hu. exact (proj1 (C05_solicited_call {| base := c; acs_table := eps; arriving := b |} r o Hr Hb Hu)).
+Qed.
+Print Assumptions C05_history.
+
+(* non-vacuity / the situation itself: ACS endpoints for POST and Artifact only.  Over POST the POST
+   endpoint is accepted; over Redirect the same Destination (own endpoint of another binding) is
+   refused, so is a response whose only fault is a Recipient naming the POST endpoint; a
+   Destination-less response with Recipient = entity id is accepted over Redirect *)
+Definition acs_art := s2l "https://sp.example.org/acs/artifact".
+Definition tbl_pa := [EP acs B_POST; EP acs_art B_ARTIFACT].
+Definition conf_me := {| c_method := Bearer; c_data := Some {| d_address := None; d_address_valid := true; d_nooa := Some 1000300;
+  d_nb := None; d_irt := Some (s2l "req-1"); d_recipient := Some me |} |}.
+Definition resp1 (dest : option str) (cf : confirmation) := {| r_sig := None; r_valid_instance := true; r_irt := Some (s2l "req-1");
+  r_version := Some V20; r_ver_lt2 := Some false; r_destination := dest; r_issue_instant := 1000000;
+  r_status := Some {| st_code := Some (Code (Some Gen.StatusTable.STATUS_SUCCESS) None); st_msg := false |};
+  r_assertions := [{| a_id := 1%N; a_sig := None; a_authn := [None];
+     a_conditions := Some {| k_empty := false; k_nb := Some 999700; k_nooa := Some 1000300; k_audiences := [[me]]; k_unknown_condition := false |};
+     a_has_subject := true; a_confirmations := [cf]; a_name_id := Some (s2l "alice") |}]; r_encrypted := [] |}.
+Example C05_binding_witness :
+  is_ok (parse_authn_response {| base := cfg0; acs_table := tbl_pa; arriving := B_POST |} (resp1 (Some acs) conf0)) = true /\
+  is_ok (parse_authn_response {| base := cfg0; acs_table := tbl_pa; arriving := B_REDIRECT |} (resp1 (Some acs) conf_me)) = false /\
+  is_ok (parse_authn_response {| base := cfg0; acs_table := tbl_pa; arriving := B_REDIRECT |} (resp1 None conf0)) = false /\
+  is_ok (parse_authn_response {| base := cfg0; acs_table := tbl_pa; arriving := B_REDIRECT |} (resp1 None conf_me)) = true /\
+  is_ok (parse_authn_response {| base := cfg0; acs_table := tbl_pa; arriving := B_ARTIFACT |} (resp1 (Some acs_art) conf_me)) = true.
+Proof. vm_compute. repeat split; reflexivity. Qed.
+Print Assumptions C05_binding_witness.
